@@ -11,5 +11,6 @@ CONSTANTS
   Handlers = {"ok"}
   ViewHist = 1
   ErrKinds = {"str","tbl","pos","pos2","num","nilv","rt"}
-  XHandlers = {"val","none"}
+  XHandlers = {"val","none","nilval"}
   Battery = TRUE
+  EmitAll = TRUE
